@@ -151,12 +151,20 @@ Core ==
   \cup {Ar("strarr", <<U(0), U(2)>>), Ar("i32arr", <<M1, E32>>), NilAr("i64arr"),
         NilAr("nci32arr"), Ar("nci32arr", <<E32>>), Ln("tagged", 0)}
 
+\* one or two telling values of every primitive: the alphabet of the exhaustive length-4 run
+Mini ==
+  {Sc("i8", Min8), Sc("i16", E16), Sc("i32", Min32), Sc("i64", E64), Sc("var", N(65)), Sc("var", U(64)),
+   Sc("uvar", U(128)), Sc("uvar", MaxU64), Ln("arrlen", 2), Ln("carrlen", 127), Ln("bool", 1), Ln("bytes", -1),
+   Ln("bytes", 3), Ln("varbytes", 64), Ln("cbytes", 127), Ln("raw", 63), Ln("str", 3), Ln("nstr", -1),
+   Ln("cstr", 127), Ln("ncstr", -1), Ar("strarr", <<U(0), U(2)>>), Ar("i32arr", <<M1, E32>>), NilAr("i64arr"),
+   Ar("nci32arr", <<E32>>), Ln("tagged", 0)}
+
 \* deep nestings: few payloads around the one/two-byte boundary of a varint length
 Nest == {Ln("raw", 1), Ln("raw", 62), Sc("i8", M1)}
 
 
 \* Enc, tabulated once for the alphabets (TLC evaluates constant definitions once); any other op is computed
-AllOps == Wide \cup Core \cup Nest
+AllOps == Wide \cup Core \cup Mini \cup Nest
 EncT == [op \in AllOps |-> Enc0(op)]
 Enc(op) == IF op \in AllOps THEN EncT[op] ELSE Enc0(op)
 
